@@ -226,17 +226,24 @@ func New(property, tier string, seed uint64, shard, shards int, outDir, flavour 
 
 // LoadKnown reads known_findings.json (missing file = none).
 func (c *Ctx) LoadKnown(path string) {
-	b, err := os.ReadFile(path)
-	if err != nil {
-		return
-	}
-	var all []KnownFinding
-	if json.Unmarshal(b, &all) != nil {
-		return
-	}
-	for _, k := range all {
-		if k.Property == c.Property {
-			c.known = append(c.known, k)
+	files := []string{path}
+	// work-in-progress entries while a check is being built (merged into the
+	// committed file before the property is claimed)
+	extra, _ := filepath.Glob(filepath.Join(filepath.Dir(path), "known.d", "*.json"))
+	files = append(files, extra...)
+	for _, f := range files {
+		b, err := os.ReadFile(f)
+		if err != nil {
+			continue
+		}
+		var all []KnownFinding
+		if json.Unmarshal(b, &all) != nil {
+			continue
+		}
+		for _, k := range all {
+			if k.Property == c.Property {
+				c.known = append(c.known, k)
+			}
 		}
 	}
 }
